@@ -73,9 +73,9 @@ where
     D: serde::Deserializer<'de>,
 {
     let s: &'de str = Deserialize::deserialize(deserializer)?;
-    // String::from(s) could panic and is not really infallibe.  It is removed in heapless 0.8.
-    #[allow(clippy::unnecessary_fallible_conversions)]
-    match String::try_from(s) {
+    // String::try_from(s) resolves to the blanket impl over heapless 0.7's `From<&str>`, which
+    // panics if the string does not fit.  `FromStr` reports the overflow as an error instead.
+    match s.parse::<String<L>>() {
         Ok(string) => Ok(Some(string)),
         Err(_err) => {
             info_now!("skipping field: {:?}", _err);
